@@ -135,7 +135,12 @@ impl<L: Language> SerializableRuleConfig<L> {
       return Ok(());
     };
     let reg = &env.registration;
-    let vars = rule.defined_vars();
+    let mut vars = rule.defined_vars();
+    // a rewriter runs while the transformations are being applied, on a copy of the env made
+    // before: it sees the captured variables of the rule but none of its transformed ones
+    for key in rule.transform.iter().flat_map(|t| t.keys()) {
+      vars.remove(key.as_str());
+    }
     for val in ser {
       if val.core.fix.is_none() {
         return Err(RuleConfigError::NoFixInRewriter(val.id.clone()));
